@@ -49,6 +49,17 @@ Fixpoint find_begin (ds : list (option ekind * string)) (l : string) : option (o
                     end
   end.
 
+(* the end line of a block: what precedes and what follows the end tag (without the newline) *)
+Definition split_end (w l : string) : option (string * string) :=
+  let tg := ("<<<" ++ w ++ "_END>>>")%string in
+  match find tg l with
+  | Some i => match chop_nl (drop (i + String.length tg) l) with
+              | Some sfx => Some (take i l, sfx)
+              | None => None
+              end
+  | None => None
+  end.
+
 Definition mk_block (id : option ekind) (ib ie : string) (body : list uline) : item16 :=
   match id with Some k => Block k ib ie body | None => SigBlock ib ie body end.
 
@@ -88,8 +99,13 @@ Fixpoint parse16_go (cur : pstate) (ls : list string) : option template16 :=
               end
           end
       | PB id w ib acc =>
-          match strip_suffix (end_line w) l with
-          | Some ie => option_map (cons (mk_block id ib ie (rev acc))) (parse16_go P0 r)
+          match (if String.eqb w "PER_MSG" then split_end w l else option_map (fun ie => (ie, EmptyString)) (strip_suffix (end_line w) l)) with
+          | Some (ie, sfx) =>
+              let body := rev acc in
+              let it := if String.eqb w "PER_MSG" && (negb (String.eqb sfx "") || existsb (mentions "MSGID") body)
+                        then MsgBlock ib ie sfx body      (* text after the end tag, or <<<MSGID>>> in the body *)
+                        else mk_block id ib ie body in
+              if String.eqb sfx "" || String.eqb w "PER_MSG" then option_map (cons it) (parse16_go P0 r) else None
           | None => match chop_nl l with
                     | Some b => parse16_go (PB id w ib (parse_segs b :: acc)) r
                     | None => None
@@ -155,5 +171,13 @@ Definition file_of (name : string) (set : list (string * list string)) : list st
 Definition names_ok_shipped (lines : list string) (tt : list EngineSM.row) (structs protos msgs : list string) : bool :=
   match shipped16 dict0 lines with
   | Some (_, t) => in_grammar07 t && names_ok t (elements_of (table_of tt) structs protos msgs)
+  | None => false
+  end.
+
+(* the same for Test.TEMPLATEStateMachine.cs (C07_wf_out_Test_TEMPLATEStateMachine_cs), with the user-tag assignment a *)
+Definition names_ok_shipped_cs (lines : list string) (tt : list EngineSM.row) (structs protos msgs : list string) (a : list (string * string)) : bool :=
+  match shipped16 dict0 lines with
+  | Some (_, t) => let e := with_user a (elements_of (table_of tt) structs protos msgs) in
+                   in_grammar07 t && names_ok t e && hooks_free e && user_lines_plain e t
   | None => false
   end.
